@@ -267,9 +267,18 @@ Error String::_op_string(ModifyOp op, const char* str, size_t size) noexcept {
     return op == ModifyOp::kAssign ? clear() : Error::kOk;
   }
 
+  // `str` can point into this string - `s.append(s)` or `s.append(s.data() + i, n)`. In that case `prepare()` may move the
+  // content to a new buffer (and release or overwrite the old one), so remember where `str` was and use the new location.
+  size_t str_offset = size_t(uintptr_t(str) - uintptr_t(data()));
+  bool str_is_own_data = op == ModifyOp::kAppend && str_offset <= this->size();
+
   char* p = prepare(op, size);
   if (!p) {
     return make_error(Error::kOutOfMemory);
+  }
+
+  if (str_is_own_data) {
+    str = data() + str_offset;
   }
 
   memcpy(p, str, size);
